@@ -65,6 +65,10 @@ def represent(U, p, P, W, how):
         V = sorted(V + [x])
         if len(ks) > 2 and rb.mult(V, ks[1]) < q:
             V = sorted(V + [ks[1]])
+    if "dup_first" in how and len(ks) > 2 and rb.mult(V, ks[1]) < q + 1:
+        V = sorted(V + [ks[1]])
+    if "dup_last" in how and len(ks) > 2 and rb.mult(V, ks[-2]) < q + 1:
+        V = sorted(V + [ks[-2]])
     T = sp.basis_change(U, V, p, q)
     pts = [x if isinstance(x, tuple) else (x,) for x in P]
     scalar = not isinstance(P[0], tuple)
@@ -115,6 +119,10 @@ def run_case(case, res):
     hows = ["id", "ins1", "elev", "elev+ins2"] if p < 3 else ["id", "ins1", "ins2"]
     if W is not None:
         hows = hows[:3]  # rational equality goes through curve products (slow): three representations
+    elif len(set(U)) >= 4:
+        # two interior knots: representations with the same degree, number of control points and distinct knots but the
+        # extra multiplicity on different knots
+        hows = hows + ["dup_first", "dup_last"]
     for P in Ps:
         reps = [(h, represent(U, p, P, W, h)) for h in hows]
         D0 = rb.denote(U, P, W, p)
